@@ -579,7 +579,7 @@ func TestCheck(t *testing.T) {
 			rec.Fail("closure", bad, "", msg)
 		}
 	}
-	cfg.SetRapid(cfg.N(150, 3000), 1)
+	cfg.SetRapid(cfg.N(600, 5000), 1)
 	rapid.Check(t, func(rt *rapid.T) {
 		if !do(genCase(rt, cfg.N(25, 40))) {
 			rt.Fatalf("C14 failed")
